@@ -27,6 +27,9 @@ def run(chk, tier):
         # R07.7 'panics naming the call': the text the mock panics with is the rendering of this call's own error
         from props.c08 import panic_message_is_the_error
         panic_message_is_the_error(chk, F, 'R07.7', cfg)
+        # R07.8 'calls without an applicable pattern fail loudly or fall through as documented': fall-through needs every pattern to have
+        # *rejected* the arguments - a pattern that cannot be evaluated (matcher error) is an error, never a rejection
+        E.selector_rules(chk, F, cfg, r_scan='R07.8', r_pure='R07.8.pure', r_ord='R07.8.ord', r_bump=None)
         # R07.2 fallback mode: set by the constructors, never written
         L.clone_and_ctor(chk, F, 'R07.2', cfg)
         acc = L.field_accesses(F, 'state::SharedState', 'fallback_mode')
